@@ -117,6 +117,20 @@ def cancellation_bound(n0, k, a, beta, z, uf):
     return float((n0 + beta) / (a * np.sqrt(max(al, 1e-300))) * dlog)
 
 
+def bracket_end_observables(rt):
+    """Mechanism observables of KF-*-basic-max-angle-nan, measured on the failing tracer: the numeric r-function of the
+    surface-side indirect ray at the very end of its root bracket (max_angle), a hair below it, and in the middle."""
+    out = {}
+    try:
+        ma = float(rt.max_angle)
+        out["r_at_max_angle"] = float(rt._indirect_r(ma))
+        out["r_just_below_max_angle"] = float(rt._indirect_r(ma * (1 - 1e-9)))
+        out["r_at_half_max_angle"] = float(rt._indirect_r(0.5 * ma))
+    except Exception as e:       # noqa: BLE001
+        out["bracket_observables_error"] = type(e).__name__
+    return out
+
+
 def run_case(case):
     v = V()
     ice = gen.make_ice(case["ice"])
@@ -173,6 +187,8 @@ def run_case(case):
         sols = list(rt.solutions)
         ex = bool(rt.exists)
     except Exception as e:
+        if case["tracer"] == "basic":
+            geo.update(bracket_end_observables(rt))
         v.check(False, "tracer reports solutions or none for in-range points (no exception)", error=type(e).__name__ + ": " + str(e)[:120], **geo)
         return v.result(decided=True, nontrivial=False, sample=geo)
     v.check(ex == (len(sols) > 0), "exists <=> the solution list is non-empty", exists=ex, n=len(sols), **geo)
@@ -328,7 +344,7 @@ def kf_basic_turning_depth_unresolved(case, viol):
     (z_turn_proximity) at which the numeric integrals stop short of the turning point, so the limits of the second leg are
     inverted, the r-function is negative at the end of the root bracket and brentq raises."""
     d = viol["detail"]
-    return (d.get("tracer") == "basic" and viol["clause"].startswith("tracer reports solutions or none") and "different signs" in d.get("error", "")
+    return (d.get("tracer") == "basic" and viol["clause"].startswith("tracer reports solutions or none") and ("different signs" in d.get("error", "") or "NaN" in d.get("error", ""))
             and d.get("turn_depth_error", 0.0) > d.get("z_turn_proximity", float("inf")))
 
 
@@ -344,5 +360,9 @@ def kf_basic_max_angle_nan(case, viol):
     """Numeric tracer: the root bracket for the surface-side indirect ray ends exactly at max_angle, where rounding can push
     sin(theta) at the surface above 1 and the numeric r-function returns NaN; brentq then raises."""
     d = viol["detail"]
+    import math
+    # measured: r is NaN exactly at the end of the bracket and finite (positive) a hair below it and in the middle of it
+    confined = ("r_at_max_angle" in d and math.isnan(d["r_at_max_angle"]) and math.isfinite(d.get("r_just_below_max_angle", float("nan")))
+                and math.isfinite(d.get("r_at_half_max_angle", float("nan"))) and d["r_at_half_max_angle"] > 0)
     return (d.get("tracer") == "basic" and viol["clause"].startswith("tracer reports solutions or none")
-            and "NaN" in d.get("error", "") and not (d.get("sat0") and d.get("sat1")))
+            and "NaN" in d.get("error", "") and not (d.get("sat0") and d.get("sat1")) and confined)
